@@ -368,6 +368,7 @@ structure Query where
   wire : Bool := false     -- wire-born request (`Chain.ResetWire`): gates read parsed wire facts
   twoQ : Bool := false     -- decoded request with a question count other than 1
   edns : Bool := true      -- the request carries an OPT
+  ad : Bool := false       -- the client set AD in the query header (RFC 6840 §5.7); `SetReply` does not copy it
 deriving Repr
 
 /-- RFC 8914 codes `isDNSSECFailure` passes through. -/
